@@ -295,6 +295,12 @@ func (st *State) Load(p PtrVal, t types.Type) Value {
 	for _, e := range p.Path {
 		v = st.fx.project(v, e)
 	}
+	if len(p.Path) == 1 && p.Path[0].Field < 0 && st.fx.factObjs[p.Obj] != nil {
+		// a read of a table that is abstracted by table facts: the facts hold at this index
+		for _, inst := range st.fx.tableInstance(p.Obj, p.Path[0].Idx) {
+			st.fx.axiom(inst)
+		}
+	}
 	return v
 }
 
